@@ -387,7 +387,10 @@ where
     }
 
     /// Unused for Euler, call is a no-op
-    fn with_tolerance(self, _tol: Self::RealField) -> Result<Self, Self::Error> {
+    fn with_tolerance(self, tol: Self::RealField) -> Result<Self, Self::Error> {
+        if tol <= <Self::RealField as Zero>::zero() {
+            return Err(IVPError::ToleranceOOB);
+        }
         Ok(self)
     }
 
